@@ -139,6 +139,29 @@ func ruleEmissionLiterals(c *core.Ctx, rule string) {
 		c.Check(rule, "pdf."+lr.fn, "file-structure literals match the ISO 32000-2 grammar: "+lr.what, func(o *core.Ob) {
 			fn := c.Prog.Func("pdf", lr.fn)
 			lits := literalsWritten(fn)
+			// writes of a buffer that is formatted by hand: their symbolic shape
+			shaped := map[*ast.CallExpr]bool{}
+			{
+				g := fn.Graph()
+				for _, v := range g.Vs {
+					if v.AST == nil {
+						continue
+					}
+					for _, cs := range core.CallsIn(fn.Info(), v.AST, false) {
+						if !(strings.HasSuffix(cs.Key, ".Write") || strings.HasSuffix(cs.Key, ".WriteString")) || len(cs.Call.Args) != 1 {
+							continue
+						}
+						if _, isConst := constBytes(fn.Info(), cs.Call.Args[0]); isConst {
+							continue
+						}
+						s, ok := bufferShape(c, fn, g, v, cs.Call.Args[0], 8)
+						if ok && s != "" {
+							lits = append(lits, lit{s, cs.Call, false})
+							shaped[cs.Call] = true
+						}
+					}
+				}
+			}
 			if len(lits) == 0 {
 				core.Undecided("no literals written in %s", fn.Key)
 			}
@@ -175,7 +198,7 @@ func ruleEmissionLiterals(c *core.Ctx, rule string) {
 			opaque := 0
 			for _, cs := range core.CallsIn(fn.Info(), fn.Decl, true) {
 				if (strings.HasSuffix(cs.Key, ".Write") || strings.HasSuffix(cs.Key, ".WriteString")) && len(cs.Call.Args) == 1 {
-					if _, isConst := constBytes(fn.Info(), cs.Call.Args[0]); !isConst {
+					if _, isConst := constBytes(fn.Info(), cs.Call.Args[0]); !isConst && !shaped[cs.Call] {
 						opaque++
 					}
 				}
@@ -380,6 +403,25 @@ func ruleOffsetCapture(c *core.Ctx, rule string) {
 								header = w
 								if len(cs.Call.Args) != 4 || !strings.Contains(core.ExprStr(cs.Call.Args[2]), "ref.Number()") || !strings.Contains(core.ExprStr(cs.Call.Args[3]), "ref.Generation()") {
 									o.FailAt(fn.Site(cs.Call, ""), "object header does not print ref.Number(), ref.Generation()")
+								}
+							}
+						}
+					}
+				}
+				if header == nil {
+					// the same header formatted by hand
+					for _, w := range writes {
+						if !g.PathExists(sx.V, w, nil) {
+							continue
+						}
+						for _, cs := range core.CallsIn(info, w.AST, false) {
+							if !(strings.HasSuffix(cs.Key, ".Write") || strings.HasSuffix(cs.Key, ".WriteString")) || len(cs.Call.Args) != 1 {
+								continue
+							}
+							if s, ok := bufferShape(c, fn, g, w, cs.Call.Args[0], 8); ok && strings.HasPrefix(s, "D+ D+ obj") && header == nil {
+								header = w
+								if !strings.Contains(core.ExprStr(cs.Call.Args[0]), "ref") {
+									o.FailAt(fn.Site(cs.Call, ""), "object header is not built from the reference being written")
 								}
 							}
 						}
@@ -1925,4 +1967,250 @@ func fillTarget(n ast.Node) ast.Expr {
 		}
 	}
 	return &ast.Ident{Name: "_"}
+}
+
+// bufferShape evaluates, symbolically, the bytes of a buffer that is built by
+// a chain of appends and handed to a write: literals stand for themselves,
+// strconv.AppendUint/AppendInt in base 10 for "D+", a repository helper of the
+// form func(dst []byte, ...) []byte for the shape of its own chain.  Anything
+// it cannot follow (loops, several reaching definitions, other calls) makes
+// the result unknown.  The shape has the form fmtShape produces for a format
+// string, so that manual formatting and fmt.Fprintf are judged by the same
+// grammar.
+func bufferShape(c *core.Ctx, fn *core.Func, g *core.Graph, at *core.V, e ast.Expr, depth int) (string, bool) {
+	info := fn.Info()
+	if depth <= 0 {
+		return "", false
+	}
+	e = ast.Unparen(e)
+	if s, ok := constBytes(info, e); ok {
+		return s, true
+	}
+	switch x := e.(type) {
+	case *ast.SliceExpr:
+		// scratch[:0], buf[:0]: empty
+		if x.High != nil {
+			if k, ok := core.IntConst(info, x.High); ok && k == 0 {
+				return "", true
+			}
+		}
+		if x.Low == nil && x.High == nil {
+			return bufferShape(c, fn, g, at, x.X, depth)
+		}
+		return "", false
+	case *ast.Ident:
+		if core.IsNil(info, x) {
+			return "", true
+		}
+		cs := usesBefore(g, at, x)
+		if len(cs) != 1 || cs[0].V == nil || cs[0].V == at || cs[0].Expr == ast.Expr(x) {
+			return "", false
+		}
+		return bufferShape(c, fn, g, cs[0].V, cs[0].Expr, depth-1)
+	case *ast.CallExpr:
+		key := core.CalleeKey(info, x)
+		// conversions: []byte("...")
+		if tv, ok := info.Types[x.Fun]; ok && tv.IsType() && len(x.Args) == 1 {
+			return bufferShape(c, fn, g, at, x.Args[0], depth)
+		}
+		switch key {
+		case "builtin.make":
+			if len(x.Args) >= 2 {
+				if k, ok := core.IntConst(info, x.Args[1]); ok && k == 0 {
+					return "", true
+				}
+			}
+			return "", false
+		case "builtin.append":
+			if len(x.Args) < 1 {
+				return "", false
+			}
+			base, ok := bufferShape(c, fn, g, at, x.Args[0], depth)
+			if !ok {
+				return "", false
+			}
+			if x.Ellipsis.IsValid() && len(x.Args) == 2 {
+				s, ok := bufferShape(c, fn, g, at, x.Args[1], depth)
+				if !ok {
+					return "", false
+				}
+				return base + s, true
+			}
+			for _, a := range x.Args[1:] {
+				k, ok := core.IntConst(info, a)
+				if !ok || k < 0 || k > 255 {
+					return "", false
+				}
+				base += string(rune(k))
+			}
+			return base, true
+		case "strconv.AppendUint", "strconv.AppendInt":
+			if len(x.Args) == 3 {
+				if b, ok := core.IntConst(info, x.Args[2]); ok && b == 10 {
+					base, ok := bufferShape(c, fn, g, at, x.Args[0], depth)
+					if ok {
+						return base + "D+", true
+					}
+				}
+			}
+			return "", false
+		}
+		// a repository helper func(dst []byte, ...) []byte whose body is such a chain
+		callee := core.Callee(info, x)
+		if callee == nil || len(x.Args) == 0 {
+			return "", false
+		}
+		h := c.Prog.FuncOf(callee)
+		if h == nil || h.Decl.Body == nil || h.Decl.Type.Params == nil || len(h.Decl.Type.Params.List) == 0 || len(h.Decl.Type.Params.List[0].Names) == 0 {
+			return "", false
+		}
+		base, ok := bufferShape(c, fn, g, at, x.Args[0], depth)
+		if !ok {
+			return "", false
+		}
+		hg := h.Graph()
+		dst := h.Info().ObjectOf(h.Decl.Type.Params.List[0].Names[0])
+		rets := hg.Returns()
+		if len(rets) != 1 {
+			return "", false
+		}
+		rs, ok := rets[0].AST.(*ast.ReturnStmt)
+		if !ok || len(rs.Results) != 1 {
+			return "", false
+		}
+		// loops in the helper: not a straight chain
+		if len(loopHeads(hg)) > 0 {
+			return "", false
+		}
+		s, ok := helperShape(c, h, hg, rets[0], rs.Results[0], dst, depth-1)
+		if !ok {
+			return "", false
+		}
+		return base + s, true
+	}
+	return "", false
+}
+
+// helperShape is bufferShape inside a helper, with the helper's destination
+// parameter standing for the empty prefix.
+func helperShape(c *core.Ctx, h *core.Func, g *core.Graph, at *core.V, e ast.Expr, dst types.Object, depth int) (string, bool) {
+	info := h.Info()
+	if id, ok := ast.Unparen(e).(*ast.Ident); ok && info.ObjectOf(id) == dst {
+		if len(defVertices(g, dst)) == 0 {
+			return "", true
+		}
+		cs := usesBefore(g, at, id)
+		if len(cs) == 1 && cs[0].V != nil && cs[0].V != at {
+			return helperShape(c, h, g, cs[0].V, cs[0].Expr, dst, depth-1)
+		}
+		if len(cs) == 0 || (len(cs) == 1 && cs[0].Expr == ast.Expr(id)) {
+			return "", true // no assignment reaches this use: the parameter's own value
+		}
+		return "", false
+	}
+	if depth <= 0 {
+		return "", false
+	}
+	if call, ok := ast.Unparen(e).(*ast.CallExpr); ok && len(call.Args) >= 1 {
+		key := core.CalleeKey(info, call)
+		switch key {
+		case "builtin.append":
+			base, ok := helperShape(c, h, g, at, call.Args[0], dst, depth)
+			if !ok {
+				return "", false
+			}
+			if call.Ellipsis.IsValid() && len(call.Args) == 2 {
+				s, ok := constBytes(info, call.Args[1])
+				if !ok {
+					return "", false
+				}
+				return base + s, true
+			}
+			for _, a := range call.Args[1:] {
+				k, ok := core.IntConst(info, a)
+				if !ok || k < 0 || k > 255 {
+					return "", false
+				}
+				base += string(rune(k))
+			}
+			return base, true
+		case "strconv.AppendUint", "strconv.AppendInt":
+			if len(call.Args) == 3 {
+				if b, ok := core.IntConst(info, call.Args[2]); ok && b == 10 {
+					base, ok := helperShape(c, h, g, at, call.Args[0], dst, depth)
+					if ok {
+						return base + "D+", true
+					}
+				}
+			}
+		}
+		return "", false
+	}
+	if id, ok := ast.Unparen(e).(*ast.Ident); ok {
+		cs := usesBefore(g, at, id)
+		if len(cs) == 1 && cs[0].V != nil && cs[0].V != at && cs[0].Expr != ast.Expr(id) {
+			return helperShape(c, h, g, cs[0].V, cs[0].Expr, dst, depth-1)
+		}
+	}
+	return "", false
+}
+
+// usesBefore is valueCases for a use on the right-hand side of the statement
+// at `at`: the definition made by that very statement (x = f(x)) does not
+// reach its own operand, unless the statement lies on a cycle.
+func usesBefore(g *core.Graph, at *core.V, id *ast.Ident) []vcase {
+	info := g.Info
+	obj := info.ObjectOf(id)
+	if obj == nil {
+		return []vcase{{id, at}}
+	}
+	defs := defVertices(g, obj)
+	isDefHere := false
+	for _, d := range defs {
+		if d == at {
+			isDefHere = true
+		}
+	}
+	if !isDefHere {
+		return valueCases(g, at, id, 1)
+	}
+	var out []vcase
+	for _, d := range defs {
+		if d == at && !g.InLoop(at) {
+			continue
+		}
+		var others []*core.V
+		for _, x := range defs {
+			if x != d && x != at {
+				others = append(others, x)
+			}
+		}
+		if d != at && !g.ReachFrom(d, false, core.AvoidVs(others...))[at] {
+			continue
+		}
+		var rhs ast.Expr
+		switch s := d.AST.(type) {
+		case *ast.AssignStmt:
+			if len(s.Lhs) == len(s.Rhs) {
+				for i, l := range s.Lhs {
+					if core.ObjOf(info, l) == obj {
+						rhs = s.Rhs[i]
+					}
+				}
+			}
+		case *ast.ValueSpec:
+			if len(s.Values) == len(s.Names) {
+				for i, n := range s.Names {
+					if info.ObjectOf(n) == obj {
+						rhs = s.Values[i]
+					}
+				}
+			}
+		}
+		if rhs == nil {
+			return []vcase{{id, at}}
+		}
+		out = append(out, vcase{rhs, d})
+	}
+	return out
 }
